@@ -590,6 +590,7 @@ static bool mi_arena_try_purge(mi_arena_t* arena, mi_msecs_t now, bool force)
         // temporarily claim the purge range as "in-use" to be thread-safe with allocation
         // try to claim the longest range of corresponding in_use bits
         const mi_bitmap_index_t bitmap_index = mi_bitmap_index_create(i, bitidx);
+        const size_t purge_len = bitlen;
         while( bitlen > 0 ) {
           if (_mi_bitmap_try_claim(arena->blocks_inuse, arena->field_count, bitlen, bitmap_index)) {
             break;
@@ -606,6 +607,10 @@ static bool mi_arena_try_purge(mi_arena_t* arena, mi_msecs_t now, bool force)
           any_purged = true;
           // release the claimed `in_use` bits again
           _mi_bitmap_unclaim(arena->blocks_inuse, arena->field_count, bitlen, bitmap_index);
+        }
+        if (bitlen < purge_len) {
+          // (part of) the range is in use (for example by a thread that is just freeing it): it stays scheduled, purge it later
+          full_purge = false;
         }
         bitidx += (bitlen+1);  // +1 to skip the zero (or end)
       } // while bitidx
